@@ -47,6 +47,9 @@ namespace vh
                     out.i(0);
                 } else if constexpr (meta::is_num_v<decltype(r)>) {
                     out.i(0);
+                } else if constexpr (std::is_same_v<elem_t, bool>) {
+                    // std::vector<bool> has no usable data(): no raw-buffer section for bool results
+                    out.i(0);
                 } else {
                     auto n = (long long)nm::size(r);
                     if (n > MAX_EMIT) n = 0;
